@@ -81,11 +81,14 @@ type gatedQR struct {
 	inner   controller.QRuntime
 	mu      sync.Mutex
 	pending string // kind of the call waiting at the gate ("" = none)
+	target  string // id of the resource the waiting call is about ("" for listings)
 	release chan struct{}
 	free    bool // the run is over: let the worker run out
 }
 
-func (g *gatedQR) gate(kind string) {
+func (g *gatedQR) gate(kind string) { g.gateT(kind, "") }
+
+func (g *gatedQR) gateT(kind, target string) {
 	g.mu.Lock()
 	if g.free {
 		g.mu.Unlock()
@@ -94,6 +97,7 @@ func (g *gatedQR) gate(kind string) {
 	}
 
 	g.pending = kind
+	g.target = target
 	ch := make(chan struct{})
 	g.release = ch
 	g.mu.Unlock()
@@ -144,37 +148,37 @@ func (g *gatedQR) Update(ctx context.Context, r resource.Resource) error {
 }
 
 func (g *gatedQR) Modify(ctx context.Context, r resource.Resource, f func(resource.Resource) error, o ...owned.ModifyOption) error {
-	g.gate("GModify")
+	g.gateT("GModify", r.Metadata().ID())
 
 	return g.inner.Modify(ctx, r, f, o...)
 }
 
 func (g *gatedQR) ModifyWithResult(ctx context.Context, r resource.Resource, f func(resource.Resource) error, o ...owned.ModifyOption) (resource.Resource, error) { //nolint:ireturn
-	g.gate("GModify")
+	g.gateT("GModify", r.Metadata().ID())
 
 	return g.inner.ModifyWithResult(ctx, r, f, o...)
 }
 
 func (g *gatedQR) Teardown(ctx context.Context, p resource.Pointer, o ...owned.DeleteOption) (bool, error) {
-	g.gate("GTeardown")
+	g.gateT("GTeardown", p.ID())
 
 	return g.inner.Teardown(ctx, p, o...)
 }
 
 func (g *gatedQR) Destroy(ctx context.Context, p resource.Pointer, o ...owned.DeleteOption) error {
-	g.gate("GDestroy")
+	g.gateT("GDestroy", p.ID())
 
 	return g.inner.Destroy(ctx, p, o...)
 }
 
 func (g *gatedQR) AddFinalizer(ctx context.Context, p resource.Pointer, f ...resource.Finalizer) error {
-	g.gate("GAddFin")
+	g.gateT("GAddFin", p.ID())
 
 	return g.inner.AddFinalizer(ctx, p, f...)
 }
 
 func (g *gatedQR) RemoveFinalizer(ctx context.Context, p resource.Pointer, f ...resource.Finalizer) error {
-	g.gate("GRemFin")
+	g.gateT("GRemFin", p.ID())
 
 	return g.inner.RemoveFinalizer(ctx, p, f...)
 }
